@@ -33,5 +33,64 @@ fn tsig_window(tsig: &VpTsigTimes) -> (r: Range<u64>)
 //%mutant end_minus "tsig.time + tsig.fudge as u64" => "tsig.time - tsig.fudge as u64"
 //%end
 }
+
+// ---- the time check of SqliteZoneHandler::authorized_tsig (statement-range extraction from an async fn) ----
+#[derive(Clone, Copy)] pub enum ResponseCode { NoError, NotAuth, Other(u16) }
+#[derive(Clone, Copy)]
+//%enum crates/proto/src/rr/rdata/tsig.rs :: TsigError
+//%end
+#[verifier::external_body]
+pub fn vp_range_contains(r: &Range<u64>, item: &u64) -> (b: bool) ensures b == (r.start <= *item && *item < r.end) { r.contains(item) }
+fn authorized_tsig_time_check(range: Range<u64>, now: u64) -> (r: (Result<(), ResponseCode>, Option<TsigError>))
+    ensures
+        // C13: "takes effect only if ... whose time is within fudge of the server clock"
+        r.0 is Ok ==> range.start <= now && now <= range.end,
+        r.0 is Err ==> r.1 == Some(TsigError::BadTime),
+        r.0 is Ok ==> r.1 is None,
+{
+//%expr crates/server/src/store/sqlite/mod.rs :: impl<P: RuntimeProvider + Send + Sync> SqliteZoneHandler<P> :: authorized_tsig :: "let mut error = None;" ..< "( response, TSigResponseContext::new"
+//%sub? "range.contains(&now)" => "vp_range_contains(&range, &now)" # R-shim: core::ops::Range::contains
+//%mutant lower_bound_dropped "!vp_range_contains(&range, &now)" => "now >= range.end"
+//%end
+    (response, error)
+}
+
+// ---- the Error field of the TSIG RDATA is decoded losslessly (so an edited Error field changes the
+//      re-emitted MAC input and the MAC check fails) ----
+pub open spec fn tsig_err_val(e: TsigError) -> u16 {
+    match e { TsigError::BadSig => 16, TsigError::BadKey => 17, TsigError::BadTime => 18, TsigError::BadTrunc => 22, TsigError::Unknown(c) => c }
+}
+pub open spec fn tsig_err_of(v: u16) -> TsigError {
+    if v == 16 { TsigError::BadSig } else if v == 17 { TsigError::BadKey } else if v == 18 { TsigError::BadTime } else if v == 22 { TsigError::BadTrunc } else { TsigError::Unknown(v) }
+}
+impl vstd::std_specs::convert::FromSpecImpl<u16> for TsigError {
+    open spec fn obeys_from_spec() -> bool { true }
+    open spec fn from_spec(v: u16) -> Self { tsig_err_of(v) }
+}
+impl From<u16> for TsigError {
+//%fn crates/proto/src/rr/rdata/tsig.rs :: impl From<u16> for TsigError :: from
+//%end
+}
+impl vstd::std_specs::convert::FromSpecImpl<TsigError> for u16 {
+    open spec fn obeys_from_spec() -> bool { true }
+    open spec fn from_spec(e: TsigError) -> Self { tsig_err_val(e) }
+}
+impl From<TsigError> for u16 {
+//%fn crates/proto/src/rr/rdata/tsig.rs :: impl From<TsigError> for u16 :: from
+//%end
+}
+// wire value -> Option<TsigError> as TSIG::read_data does it, and back as TSIG::emit does it
+pub open spec fn tsig_err_field_val(e: Option<TsigError>) -> u16 { match e { None => 0, Some(x) => tsig_err_val(x) } }
+fn tsig_error_field_from_wire(vp_wire: u16) -> (error: Option<TsigError>)
+    ensures tsig_err_field_val(error) == vp_wire      // nothing is lost: the wire value is recoverable
+{
+    let error =
+//%expr crates/proto/src/rr/rdata/tsig.rs :: impl<'r> RecordDataDecodable<'r> for TSIG :: read_data :: "match decoder.read_u16()?.unverified(/*valid as any u16*/) {"@1 .. "code => Some(TsigError::from(code)), }"
+//%sub1 "decoder.read_u16()?.unverified(/*valid as any u16*/)" => "vp_wire" # R-sel: the value just read from the wire is the wrapper's parameter
+//%mutant low_codes_dropped "0 => None," => "0..=15 => None,"
+//%end
+    ;
+    error
+}
 } // verus!
 fn main() {}
